@@ -9,6 +9,8 @@ TRUST = ('Trusted: nightly MIR == what stable rustc builds (counterexamples are 
          '(listed per run in the evidence, validated by the concrete differential self-test against the native binary). ')
 
 CLAIMED = {
+    'C14': ('Each of the 22 LdapConn / EntryStream methods runs from MIR with Runtime::block_on modelled as "drive to completion" and the same-named Ldap / SearchStream method as an intercepted, uninterpreted callee resolving to Ok(token) or Err(token), with the handle\'s closed flag symbolic: exactly one forwarded call, to the right method, on the wrapper\'s own handle/stream, arguments unchanged, returned value exactly the callee\'s; with_controls/with_timeout/with_search_options/last_id/is_closed compared with the async versions on an identical handle. Counterexamples are reproduced as a behavioural difference between both APIs against the same scripted in-process peer.',
+            TRUST + 'The tokio runtime is trusted; what the async methods themselves do is C02/C10. Connection establishment is C18; gssapi/ntlm binds are not built.', '§6 C14'),
     'C02': ('Envelope: LdapCodec::encode -> build_tag -> encode_into from MIR for every message ID in 1..2^31-1, None/Some(0..2 (3)) controls with symbolic OID/criticality/value, operation bodies incl. lengths across the 127/128 boundary, against a reference RFC 4511 encoder. Builders: each of the 11 operations (15 argument shapes: every Mod variant, present/absent newSuperior and extended value, empty-value Add refused, search options) is executed from its async-fn coroutine MIR up to Ldap::op_call; the captured (LdapOp, request) goes through the real codec and z3 proves the bytes equal the reference PDU of the symbolic arguments (SET OF as multiset). op_call up to the reply wait: queued ID = freshly allocated ID, exactly the handle\'s controls travel, controls and timeout cleared afterwards, timer armed iff a timeout was set; search options consumed; Ldap::clone() carries no pending modifiers.',
             TRUST + 'Lane B2: tokio channel/timer calls are environment stubs (send records, waits answer Pending). Strings <=2 (3) bytes, <=2 attributes/modifications/controls; filters in SearchRequest from one template (grammar: C08).', '§6 C02'),
     'C19': ('Every request control and extended request of the library (17 kinds incl. critical wrappers, all 8 PasswordModify combinations, both SyncRequest modes) is built by the real From impls / construct_exop from MIR with symbolic sizes, cookies, identifiers and filter characters, and compared by z3 with the OID, criticality and BER value written here from the defining RFCs; every response parser (PagedResults, SyncState, SyncDone, the 4 SyncInfo alternatives with DEFAULTs, ReadEntry, WhoAmI, StartTxn, PasswordModify) is run on reference encodings with symbolic contents and short/81/82/84 length forms; control lists of 0..2 (3) controls go through build_tag and parse_controls.',
